@@ -7,15 +7,6 @@ import XPathV.Lemmas.Facts
 namespace XPathV.Theorems.C09
 open XPathV XPathV.Model XPathV.Facts NumAlg
 
-/-- T0 (F3): each string function's arity window in `processFunction` -/
-theorem string_function_arities :
-    (Generated.funcTable.filter (fun e => e.names.any (fun n => ["concat", "contains", "starts-with", "ends-with",
-        "substring", "substring-before", "substring-after", "string-length", "normalize-space", "translate",
-        "lower-case", "string-join"].contains n))).map (fun e => (e.names, e.minArgs, e.maxArgs)) =
-    [(["lower-case"], 1, none), (["starts-with"], 2, none), (["ends-with"], 2, none), (["contains"], 2, none),
-     (["substring"], 2, none), (["substring-before", "substring-after"], 2, some 2), (["string-length"], 1, none),
-     (["normalize-space"], 0, none), (["translate"], 3, some 3), (["concat"], 2, none), (["string-join"], 2, some 2)] := by decide
-
 variable {F : Type} [NumAlg F]
 
 /-- three-argument substring: exactly the characters at the positions `p` with
@@ -91,11 +82,5 @@ theorem nodeset_argument_empty (d : Doc) (cfg : ECfg) (c : Ref) (b : String) :
     callFn (F := F) d cfg "contains" .nil c [.ok (.nodes []), .ok (.str b)] none
       = .ok (.bool (Spec.fnContains "" b)) := by
   simp [callFn, bind, Except.bind]
-
-/-- T0: the bounds `substringFunc` computes are the ones `substringM` models:
-`first = xpathRound(start)`, `last = first + xpathRound(length)` (or +Inf), clipped to `[1, len+1]`
-(`xpathRound` itself is `xpathRoundM`, compared with the code by the substring sweep) -/
-theorem substring_bounds_source_ok : Generated.substringBoundsSrc =
-    ["first:=xpathRound(start)", "last:=math.Inf(1)", "last=first+xpathRound(length)", "first=1", "last=float64(len(m)+1)"] := rfl
 
 end XPathV.Theorems.C09
